@@ -280,12 +280,18 @@ def main(c):
         return
     c.log("driver ran %d cases (%d mock, %d real solvers)" % (len(cases), sum(1 for x in cases if x.kind == "M"), sum(1 for x in cases if x.kind == "S")))
     nsucc = 0
+    nbad = {}
     for cs in cases:
         o = obs[cs.id]
         nsucc += o[0] in (1, 2)
         c.count(1, cs.id, len(o[3]) > 5)
         for (key, what) in spec_check(cs, o):
-            c.report(key, what, cs.json(), True)
+            cat = key.split(":")[0]
+            nbad[cat] = nbad.get(cat, 0) + 1
+            if nbad[cat] <= 5:  # the first failing inputs of each kind (cases are ordered by size)
+                c.report(key, what, cs.json(), True)
+    if nbad:
+        c.notes.append("property failures observed on the real code, by kind: %s (first 5 of each reported)" % nbad)
     # ---- correspondence: complete trace + final state, model vs real code
     mism = []
     nmodel = 0
